@@ -42,3 +42,6 @@ SPEC = {'id': 'C43',
                'relative to cleanup ticks.'}
 SPEC['assumptions'].append("after a failover cleanupGroups only visits groups that some request has already loaded into the new coordinator's memory (c.groups); modelled faithfully: [Cleanup] with nothing in memory is a no-op, so C43_expired_removed / C43_laggers_removed are stated for a group that is in memory. The property's quantifier (timings of heartbeats and joins) has no failover; consequence outside it: a group none of whose members ever contacts the new coordinator stays in the store (DescribeGroups/ListGroups still show it) until a request for it arrives, then the next tick expires its members")
 SPEC['assumptions'].insert(0, "every coordinator operation holds c.mu from its first read of group state to its last store write (this is what makes the model's step relation atomic per operation, schedules = operation sequences). CHECKED by the harness on the real code: a gating store wrapper intercepts every store call the coordinator makes (Metadata, PutConsumerGroup, FetchConsumerGroup, DeleteConsumerGroup, CommitConsumerOffset) during every operation of every history and tests whether c.mu is free; if it is, the schedule's inner operations are run to completion on the same group while that store call is parked and the failure lock-released-across-store-call:<op>:<storecall> is reported with the schedule as replay (plus whatever the property oracles then observe); where the lock is held the inner operations run after the outer one, which is the order the lock enforces. Windows for every outer kind x inner kind are generated in every quick run.")
+SPEC['assumptions'] = [a for a in SPEC['assumptions'] if not a.startswith('store operations succeed')]
+SPEC['assumptions'].append("transient store failures ARE modelled (model/CoordinatorFaults.v, step relation stepf with a per-operation fault: load of the group / whole-group write / offset write fails) and injected by the harness's gating store wrapper into every operation kind (incl. the first join, leave, the leader's sync, cleanup's persist, the load after a failover); the *_under_store_faults theorems hold for arbitrary failures; claims that compare a coordinator with its successor (C15 view, C13/C12 across failover) need 'the last whole-group write succeeded' (synced), stated in the theorems. Not modelled and not injected: a failing store.Metadata in the leader's sync (collectTopicPartitions falls back to partition 0 per topic). The check needs fixes/C14-join-error-reply-no-members.patch.")
+SPEC['coq_deps'] = ['theories/corr/CoordinatorCorr.vo']
